@@ -144,6 +144,10 @@ def run_check(prop, tier="quick", replay=None):
         else:
             new.append(o)
     os.makedirs(VIOL_DIR, exist_ok=True)
+    if not replay:
+        for fn_ in os.listdir(VIOL_DIR):
+            if fn_.startswith(prop + "__"):
+                os.unlink(os.path.join(VIOL_DIR, fn_))
     for o in new:
         safe = "".join(c if c.isalnum() or c in "._-" else "_" for c in o.key)[:150]
         path = os.path.join(VIOL_DIR, "%s__%s.json" % (prop, safe))
